@@ -34,7 +34,7 @@ func (m *LoadBalancedManager) VBalancers() []VBalancer {
 	return out
 }
 
-func (s *Server) VOpenSessions() int            { return s.openSessions() }
+func (s *Server) VOpenSessions() int            { return int(s.openSessions()) }
 func (s *Server) VAddSession(sess *yamux.Session) { s.addSession(sess) }
 func (s *Server) VRemoveSession(sess *yamux.Session) { s.removeSession(sess) }
 
